@@ -38,6 +38,7 @@ var reflTable = map[string]reflReq{
 	"(reflect.Value).Interface":    {valid: true, canif: true},
 	"(reflect.Value).Convert":      {valid: true},
 	"(reflect.Value).IsZero":       {valid: true},
+	"(reflect.Value).CanInterface": {valid: true},
 	"(reflect.Value).MethodByName": {valid: true},
 	"(reflect.Value).Elem":         {kinds: []int64{kPtr, kIface}},
 	"(reflect.Value).IsNil":        {kinds: []int64{kChan, kFunc, kIface, kMap, kPtr, kSlice, kUnsafe}},
@@ -349,7 +350,7 @@ func (c *Ctx) forallShape(fn *ssa.Function) (forallSpec, bool) {
 
 // reflNoPanic: reflect.Value methods that accept every Value.
 var reflNoPanic = map[string]bool{
-	"(reflect.Value).Kind": true, "(reflect.Value).IsValid": true, "(reflect.Value).CanInterface": true,
+	"(reflect.Value).Kind": true, "(reflect.Value).IsValid": true,
 	"(reflect.Value).CanAddr": true, "(reflect.Value).CanSet": true, "(reflect.Value).String": true,
 	"(reflect.Value).Comparable": true,
 }
